@@ -401,3 +401,102 @@ def nested_path_cases(r: random.Random, tier: str) -> list[tuple[str, list[dict]
                 fixed += 1
             out.append((pre + node["text"] + post, path_nodes(node), must, sh))
     return out
+
+
+# ---------------------------------------------------------------- multi-template programs with a render-time error
+
+FAILING = [  # (construct, needs StrictUndefined)
+    ("{% include 'nosuch' %}", False), ("{% render 'nosuch' %}", False), ("{{ 1 | divided_by: 0 }}", False), ("{{ 'a' | slice: 'z' }}", False),
+    ("{% for z in 5 %}{% endfor %}", False), ("{{ nope.x }}", True), ("{% if nope %}{% endif %}", True), ("{{ 7 | modulo: 0 | upcase }}", False),
+    ("{% break %}", False), ("{% assign v = 1 | divided_by: 0 %}", False), ("{{ \"${ 1 | divided_by: 0 }\" }}", False),
+]
+HISTORIES = [  # steps that run BEFORE the failing construct; {P} partial names are defined below
+    "", "{% for i in (1..3) %}\n{% include 'row_break' %}\n{% endfor %}", "{% for i in (1..3) %}{% include 'row_continue' %}{% endfor %}",
+    "{% for i in (1..2) %}{% for j in (1..2) %}{% include 'row_break' %}{% endfor %}{% include 'row_continue' %}{% endfor %}",
+    "{% include 'plain' %}", "{% render 'plain' %}", "{% for i in (1..2) %}{% render 'plain' %}{% endfor %}",
+    "{% macro m %}{% include 'plain' %}{% endmacro %}{% call m %}", "{% for i in (1..3) %}{% include 'nested_break' %}{% endfor %}",
+    "{% capture c %}{% for i in (1..2) %}{% include 'row_break' %}{% endfor %}{% endcapture %}",
+    "{% for i in (1..2) %}{% include 'row_break' with i as k %}{% endfor %}", "{% include 'row_loop' %}",
+    "{% liquid for i in (1..3)\n include 'row_continue'\n endfor %}", "{% for i in (1..3) %}{% if i == 2 %}{% break %}{% endif %}{% include 'plain' %}{% endfor %}",
+]
+PARTIALS = {
+    "row_break": "r{{ i }}{% if i == 2 %}{% break %}{% endif %}-", "row_continue": "c{% if i == 1 %}{% continue %}{% endif %}{{ i }}\n",
+    "plain": "p\n{{ 1 | plus: 1 }}", "nested_break": "{% include 'row_break' %}", "row_loop": "{% for q in (1..3) %}{% include 'row_break' with q as i %}{% endfor %}",
+}
+
+
+def program_cases(r: random.Random, tier: str) -> list[tuple[dict[str, str], str, str, bool]]:
+    """(templates, entry, name of the template that contains the failing
+    construct, strict undefined). The failing construct sits after the history,
+    several lines down, in the entry template, in an included partial, in the
+    overriding block of a child or in the base template after the block."""
+    out = []
+    fillers = ["text", "{{ 'ok' }}", "", "  {% assign w = 1 %}", "{# c #}"]
+    n = 0
+    for hist in HISTORIES:
+        for fail, strict in FAILING:
+            n += 1
+            if tier != "thorough" and n % 2 and hist not in HISTORIES[1:4]:
+                continue
+            pre = "\n".join(r.choice(fillers) for _ in range(r.randint(0, 3)))
+            mid = "\n".join(r.choice(fillers) for _ in range(r.randint(1, 3)))
+            indent = r.choice(["", "  ", "\t"])
+            body = pre + "\n" + hist + "\n" + mid + "\n" + indent + fail + "\nend"
+            kind = n % 4
+            if kind == 2 and "break" in fail:
+                kind = 0     # a stray break inside an overriding block is reported at the block tag of the base
+            t = dict(PARTIALS)
+            if kind == 0:
+                t["main"] = body
+                out.append((t, "main", "main", strict))
+            elif kind == 1:
+                t["inner"] = body
+                t["main"] = "m1\n" + r.choice(["{% include 'inner' %}", "{% for u in (1..1) %}{% include 'inner' %}{% endfor %}"]) + "\nm3"
+                out.append((t, "main", "inner", strict))
+            elif kind == 2:
+                t["base"] = "B1\n{% block b %}base{% endblock %}\nB3"
+                t["main"] = "{% extends 'base' %}\n{% block b %}" + body + "{% endblock %}"
+                out.append((t, "main", "main", strict))
+            else:
+                t["base"] = "B1\n{% block b %}base{% endblock %}\n" + body
+                t["main"] = "{% extends 'base' %}{% block b %}\n" + hist + "\nchild{% endblock %}"
+                out.append((t, "main", "base", strict))
+    return out
+
+
+# ---------------------------------------------------------------- translatable messages nested in blocks
+
+def extraction_cases(r: random.Random, tier: str) -> list[str]:
+    """Templates whose translatable messages are 'M<k>' strings, each on a line
+    of its own, nested in blocks that start on earlier lines."""
+    opens = [("{% if x %}", "{% endif %}"), ("{% for i in y %}", "{% endfor %}"), ("{% unless x %}", "{% endunless %}"),
+             ("{% case x %}\n{% when 1 %}", "{% endcase %}"), ("{% capture c %}", "{% endcapture %}"), ("{% with a: 1 %}", "{% endwith %}"),
+             ("{% if x %}\n{% else %}", "{% endif %}"), ("{% for i in y %}\n{% if i %}", "{% endif %}\n{% endfor %}")]
+    out = []
+    for _ in range(120 if tier == "thorough" else 25):
+        k = 0
+        lines: list[str] = []
+        closers: list[str] = []
+        for _step in range(r.randint(3, 9)):
+            c = r.random()
+            if c < 0.3 and len(closers) < 3:
+                o, cl = r.choice(opens)
+                lines += o.split("\n")
+                closers.append(cl)
+            elif c < 0.4 and closers:
+                lines += closers.pop().split("\n")
+            elif c < 0.55:
+                lines.append(r.choice(["", "text", "  {{ z }}", "{# c #}"]))
+            else:
+                k += 1
+                m = f"M{k}"
+                form = r.choice(["{{ '@M@' | t }}", "  {% assign m = '@M@' | t %}", "{{ '@M@' | gettext }}", "\t{% echo '@M@' | t: v: 1 %}",
+                                 "{% translate %}@M@{% endtranslate %}", "{{ z }} {{ \"@M@\" | t }}", "{% liquid", "{{ '@M@' | t | upcase }}"])
+                if form == "{% liquid":
+                    lines += ["{% liquid", "  if x", f"    echo '{m}' | t", "  endif", "%}"]
+                else:
+                    lines.append(form.replace('@M@', m))
+        while closers:
+            lines += closers.pop().split("\n")
+        out.append("\n".join(lines))
+    return out
